@@ -116,8 +116,10 @@ pub struct ADRole {
     pub name: usize,
     pub ids: Vec<usize>,
     pub thr: u64,
-    /// literal path patterns; `*` alone matches everything
+    /// path patterns (`paths`)
     pub patterns: Vec<String>,
+    /// when non-empty the role is delegated by `path_hash_prefixes` instead of `paths`
+    pub hash_prefixes: Vec<String>,
 }
 
 #[derive(Clone, Debug)]
@@ -379,6 +381,9 @@ impl<'a> World<'a> {
 
     /// The identity of a real digest. Ids >= 1000 are handed out for real file contents.
     pub fn digest_id(&mut self, d: &[u8]) -> u64 {
+        if let Some((id, _)) = self.invented.iter().find(|(_, b)| b.as_slice() == d) {
+            return *id;
+        }
         let n = self.digests.len() as u64;
         *self.digests.entry(d.to_vec()).or_insert(1000 + n)
     }
@@ -460,7 +465,9 @@ impl<'a> World<'a> {
             json!({"keys": meta::key_table(&self.keys(&d.table)),
                 "roles": d.roles.iter().map(|r| json!({
                     "name": self.names.roles[r.name], "keyids": self.keys(&r.ids).iter().map(|k| k.id.clone()).collect::<Vec<_>>(),
-                    "threshold": r.thr, "paths": r.patterns, "terminating": false})).collect::<Vec<_>>()})
+                    "threshold": r.thr, (if r.hash_prefixes.is_empty() { "paths" } else { "path_hash_prefixes" }):
+                        (if r.hash_prefixes.is_empty() { r.patterns.clone() } else { r.hash_prefixes.clone() }),
+                    "terminating": false})).collect::<Vec<_>>()})
         });
         let mut v = meta::targets_json(t.version, &self.t(t.expires), tg, deleg);
         v["x-msg"] = json!(t.msg);
